@@ -438,12 +438,38 @@ def term_cases(res, rng, tier):
         lo, hi = train.min(), train.max()
         w = (hi - lo) or 1.0
         test = np.array([lo + (rng.random() * 2 - 0.5) * w for _ in range(10)] + [lo, hi])
+        # history of compiles of the one term object (an earlier fit / a shared term), and knots given by the user
+        hist = []
+        if rng.random() < 0.5:
+            for _ in range(rng.choice([1, 1, 2])):
+                sc0 = 10 ** rng.uniform(-3, 3)
+                hist.append(np.array([rng.uniform(-3, 3) * sc0 + sc0 * rng.random() for _ in range(rng.randint(1, 9))]) if not cat
+                            else np.array([float(rng.randint(-2, 9)) for _ in range(rng.randint(1, 9))]))
+            res.count('spline compile after earlier compiles')
+        if rng.random() < 0.1:
+            hist.append(train.copy())                       # compiled twice on the same data
+        hist.append(train)
+        user = None
+        if rng.random() < 0.25:
+            user = (float(lo - rng.random() * w), float(hi + rng.random() * w))
+            if rng.random() < 0.3:
+                user = (user[1], user[0])
+            res.count('spline with user edge_knots')
         term = SplineTerm(0, n_splines=n, spline_order=k, basis='cp' if periodic else 'ps',
-                          dtype='categorical' if cat else 'numerical')
+                          dtype='categorical' if cat else 'numerical', edge_knots=None if user is None else list(user))
         with warnings.catch_warnings():
             warnings.simplefilter('ignore')
-            term.compile(train[:, None])
+            for col in hist:
+                term.compile(col[:, None])
             ek = tuple(float(v) for v in term.edge_knots_)
+        # the property statement, directly: default knots are (min, max) of the data of the last compile; given knots are kept
+        want = user if user is not None else ((lo - 0.5, hi + 0.5) if cat else (float(lo), float(hi)))
+        if tuple(ek) != tuple(float(v) for v in want):
+            res.violations.append(dict(what='edge knots after SplineTerm.compile are not (min, max) of the compiled data / the given knots',
+                                       finding=None, input=dict(history=[h.tolist() for h in hist], edge_knots=user, categorical=cat),
+                                       observed=list(ek), expected=list(map(float, want))))
+        with warnings.catch_warnings():
+            warnings.simplefilter('ignore')
             rows = []
             for x in test:                                  # one call per point so that a raising point is isolated
                 try:
@@ -459,11 +485,12 @@ def term_cases(res, rng, tier):
             pts.append(point_coq(x, alternatives(x, ek, n, k, periodic), 1.0, row))
             res.case(('term', c, float(x)), nontrivial=True)
         res.count('SplineTerm.build_columns points', len(pts))
-        cases.append('(CTerm %s %s (%s,%s) %d %d %s %s %s)' % (
-            coq_list([dylit(v) for v in train]), coq_bool(cat), dylit(ek[0]), dylit(ek[1]), n, k, coq_bool(periodic),
-            qlit(TOL), coq_list(pts)))
-        meta.append(dict(kind='SplineTerm.build_columns', train=train.tolist(), test=test.tolist(), n_splines=n,
-                         spline_order=k, periodic=periodic, categorical=cat))
+        cases.append('(CTerm %s %s %s (%s,%s) %d %d %s %s %s)' % (
+            coq_list([coq_list([dylit(v) for v in h]) for h in hist]),
+            'None' if user is None else '(Some (%s,%s))' % (dylit(user[0]), dylit(user[1])),
+            coq_bool(cat), dylit(ek[0]), dylit(ek[1]), n, k, coq_bool(periodic), qlit(TOL), coq_list(pts)))
+        meta.append(dict(kind='SplineTerm.build_columns', history=[h.tolist() for h in hist], edge_knots=user, test=test.tolist(),
+                         n_splines=n, spline_order=k, periodic=periodic, categorical=cat))
     return cases, meta
 
 
